@@ -912,7 +912,8 @@ Lemma step_ok : forall k s c o, Good k s c -> in_budget k s o = true -> outside_
   o <> Flush -> StepOK k s c o.
 Proof.
   intros k s c o HG Hb Hf Hne. unfold outside_findings in Hf. apply andb_true_iff in Hf.
-  destruct Hf as [Hd Hc]. apply negb_true_iff in Hd. apply negb_true_iff in Hc.
+  destruct Hf as [Hf Hq]. apply andb_true_iff in Hf.
+  destruct Hf as [Hd Hc]. apply negb_true_iff in Hd. apply negb_true_iff in Hc. apply negb_true_iff in Hq.
   destruct o; cbn [in_budget] in Hb.
   - apply step_new; [exact HG | apply Nat.leb_le; exact Hb].
   - apply step_gate1; assumption.
@@ -923,6 +924,7 @@ Proof.
   - apply step_free; assumption.
   - apply andb_true_iff in Hb. destruct Hb as [H1 H2]. apply Nat.leb_le in H1, H2. apply step_keep; assumption.
   - apply andb_true_iff in Hb. destruct Hb as [H1 H2]. apply Nat.leb_le in H1, H2. apply step_ctx; assumption.
+  - simpl in Hq. discriminate.
   - congruence.
 Qed.
 
@@ -1104,4 +1106,10 @@ Proof.
   intros k ops Hb Hf. unfold has_fault. destruct (existsb is_faultb (run0 k ops)) eqn:E; [|reflexivity].
   exfalso. apply existsb_exists in E. destruct E as [o [Hin Ho]].
   apply (no_alloc_fault k ops Hb Hf o Hin). destruct o as [i|i t a [f|]| |]; simpl in *; try discriminate; exact I.
+Qed.
+
+(* two handles with the same ID in the list of active qubits is not an agreeing state *)
+Lemma bad_obs_dup : forall k t a, ~ good_obs k (OFlush [0; 0] t a None).
+Proof.
+  intros k t a [_ [H _]]. inversion H as [|x l Hn Hnd]; subst. apply Hn. left. reflexivity.
 Qed.
